@@ -409,6 +409,9 @@ func c19Builtin(p *Program, r *Report) {
 	}
 	c19Range(p, r, lits["range"])
 	c19Keys(p, r, lits["keys"])
+	c19ImportFresh(p, r)
+	c19Describes(p, r, "typeOf", lits["typeOf"], false)
+	c19Describes(p, r, "kindOf", lits["kindOf"], true)
 	var toSlice *ssa.Function
 	if m := sp.Members["toSlice"]; m != nil {
 		toSlice, _ = m.(*ssa.Function)
@@ -1236,4 +1239,180 @@ func c19InvalidExit(p *Program, r *Report) {
 		}
 	}
 	r.Floor("C19.R10", n, 3)
+}
+
+// c19Describes (R11): typeOf / kindOf name the type / kind of the argument itself: every non-constant result is
+// reflect.TypeOf(arg).String() (resp. .Kind().String()), or the same through reflect.ValueOf(arg); nothing is unwrapped
+// or dereferenced on the way.
+func c19Describes(p *Program, r *Report, name string, fn *ssa.Function, kind bool) {
+	if fn == nil || len(fn.Params) != 1 {
+		r.Undecided("C19.R11", name+"|describes its argument", "core", "builtin "+name+" is not a one-parameter function literal")
+		return
+	}
+	arg := fn.Params[0]
+	isArg := func(v ssa.Value) bool {
+		for {
+			switch x := v.(type) {
+			case *ssa.ChangeInterface:
+				v = x.X
+				continue
+			case *ssa.MakeInterface:
+				v = x.X
+				continue
+			}
+			break
+		}
+		return v == ssa.Value(arg)
+	}
+	var valueOfArg, typeOfArg func(v ssa.Value, d int) string
+	valueOfArg = func(v ssa.Value, d int) string {
+		c, ok := v.(*ssa.Call)
+		if !ok || d > 6 {
+			return "the reflect.Value described is not reflect.ValueOf(argument)"
+		}
+		o := calleeObj(c)
+		if isFuncNamed(o, "reflect", "", "ValueOf") && isArg(c.Call.Args[0]) {
+			return ""
+		}
+		if o != nil {
+			return "the value described comes from " + o.FullName() + ", not from reflect.ValueOf(argument)"
+		}
+		return "the reflect.Value described is not reflect.ValueOf(argument)"
+	}
+	typeOfArg = func(v ssa.Value, d int) string {
+		c, ok := v.(*ssa.Call)
+		if !ok || d > 6 {
+			return "the reflect.Type described is not reflect.TypeOf(argument)"
+		}
+		o := calleeObj(c)
+		if isFuncNamed(o, "reflect", "", "TypeOf") && isArg(c.Call.Args[0]) {
+			return ""
+		}
+		if isFuncNamed(o, "reflect", "Value", "Type") {
+			return valueOfArg(c.Call.Args[0], d+1)
+		}
+		if o != nil {
+			return "the type described comes from " + o.FullName() + ", not from reflect.TypeOf(argument)"
+		}
+		return "the reflect.Type described is not reflect.TypeOf(argument)"
+	}
+	n := 0
+	var results func(v ssa.Value, seen map[ssa.Value]bool) string
+	results = func(v ssa.Value, seen map[ssa.Value]bool) string {
+		if seen[v] {
+			return ""
+		}
+		seen[v] = true
+		switch x := v.(type) {
+		case *ssa.Const:
+			return ""
+		case *ssa.Phi:
+			for _, e := range x.Edges {
+				if w := results(e, seen); w != "" {
+					return w
+				}
+			}
+			return ""
+		case *ssa.Call:
+			o := calleeObj(x)
+			n++
+			if !kind && o != nil && o.Name() == "String" && x.Call.IsInvoke() {
+				return typeOfArg(x.Call.Value, 0)
+			}
+			if kind && isFuncNamed(o, "reflect", "Kind", "String") {
+				kc, ok := x.Call.Args[0].(*ssa.Call)
+				if !ok {
+					return "the kind described is not computed from the argument"
+				}
+				ko := calleeObj(kc)
+				if ko != nil && ko.Name() == "Kind" && kc.Call.IsInvoke() {
+					return typeOfArg(kc.Call.Value, 0)
+				}
+				if isFuncNamed(ko, "reflect", "Value", "Kind") {
+					return valueOfArg(kc.Call.Args[0], 0)
+				}
+				return "the kind described is not computed from the argument"
+			}
+			return "the result is not the String() of the argument's type/kind"
+		}
+		return "the result is not the String() of the argument's type/kind"
+	}
+	why := ""
+	for _, b := range fn.Blocks {
+		if ret, ok := b.Instrs[len(b.Instrs)-1].(*ssa.Return); ok && len(ret.Results) == 1 {
+			if w := results(ret.Results[0], map[ssa.Value]bool{}); w != "" {
+				why = w
+			}
+		}
+	}
+	if why == "" && n == 0 {
+		why = "no result is computed from the argument"
+	}
+	r.Check(why == "", "C19.R11", name+"|describes its argument", p.Pos(fn.Pos()), "every computed result is the String() of the type/kind of the argument itself",
+		why+": "+name+" names the type or kind of something else than the value it was given (a pointer is reported as what it points to)")
+}
+
+// c19ImportFresh (R12): what `import` yields is a scope made in that very evaluation (and so filled from the package tables
+// there and then): a scope obtained from anywhere else carries whatever earlier scripts assigned in it, and a name is then no
+// longer bound to the Go function the table lists under it.
+func c19ImportFresh(p *Program, r *Report) {
+	r.Explain("R12 the scope import yields is created by an env constructor in the same evaluation.")
+	m, err := buildVMModel(p)
+	if err != nil {
+		r.Undecided("C19.R12", "import|model", "vm", err.Error())
+		return
+	}
+	h := m.handlers["expr"]["ImportExpr"]
+	if h == nil {
+		r.Undecided("C19.R12", "import|handler", "vm", "no handler for ImportExpr found")
+		return
+	}
+	base := m.baseOf(h)
+	n := 0
+	for _, b := range h.Blocks {
+		for _, in := range b.Instrs {
+			st, ok := in.(*ssa.Store)
+			if !ok || m.cellAddr(st.Addr, base) != "rv" {
+				continue
+			}
+			c, ok := st.Val.(*ssa.Call)
+			if !ok || !isFuncNamed(calleeObj(c), "reflect", "", "ValueOf") {
+				continue
+			}
+			x := c.Call.Args[0]
+			if mi, ok := x.(*ssa.MakeInterface); ok {
+				x = mi.X
+			}
+			n++
+			fresh := false
+			if sv := spilledValue(x); sv != nil {
+				x = sv
+			}
+			if mk, ok := x.(*ssa.Call); ok {
+				if callee := staticCallee(mk); callee != nil && callee.Pkg != nil && callee.Pkg.Pkg.Path() == modPath+"/env" && childOrNew(callee) {
+					fresh = true
+				}
+			}
+			r.Check(fresh, "C19.R12", fmt.Sprintf("import|scope #%d made in this evaluation", n), p.Pos(st.Pos()), "the scope handed to the script is created by an env constructor in the same evaluation",
+				"import hands the script a scope that was not created in this evaluation (kept from an earlier one): assignments a script made to its members are what every later import sees, so a name no longer denotes the Go function listed under it")
+		}
+	}
+	r.Floor("C19.R12", n, 1)
+}
+
+// childOrNew: an env constructor: every *Env it returns is allocated in the call.
+func childOrNew(fn *ssa.Function) bool {
+	if len(fn.Blocks) == 0 {
+		return false
+	}
+	for _, b := range fn.Blocks {
+		ret, ok := b.Instrs[len(b.Instrs)-1].(*ssa.Return)
+		if !ok || len(ret.Results) == 0 {
+			continue
+		}
+		if _, ok := ret.Results[0].(*ssa.Alloc); !ok {
+			return false
+		}
+	}
+	return true
 }
